@@ -44,10 +44,11 @@ try:
     cmd = "timeout 1200 go test -vet=off -count=1 -run '%s' %s" % (runre, rel)
     rc1, o1 = sh(cmd, cwd=os.path.join(wt, mod)); res["demo_with_patch_fails"] = rc1 != 0 and "FAIL" in o1
     res["demo_with_patch_tail"] = o1[-600:]
-    sh("git stash -q -- " + " ".join(files), cwd=wt)
+    # (not git stash: the stash is shared by every worktree of the repository)
+    sh("git diff -- " + " ".join(files) + " > /tmp/sv/" + name + ".toggle.diff && git apply -R /tmp/sv/" + name + ".toggle.diff", cwd=wt)
     rc2, o2 = sh(cmd, cwd=os.path.join(wt, mod)); res["demo_without_patch_passes"] = rc2 == 0
     res["demo_without_patch_tail"] = o2[-300:]
-    sh("git stash pop -q", cwd=wt)
+    sh("git apply /tmp/sv/" + name + ".toggle.diff", cwd=wt)
     # baseline tests of the touched packages
     base = json.load(open("/root/.vp/BASELINE.json"))["stable_pass"]
     ok_all = True; ran = []
